@@ -35,7 +35,16 @@ type DetCase struct {
 	// AltVars: the same request text served with other variable values between repetitions
 	// (through Do and, when Cache is set, through the same cache entry)
 	AltVars []map[string]*model.Val `json:"altVars,omitempty"`
+	// Neighbours: other documents over the same schema (same fragment and variable names, other
+	// bodies), served with their own variables between repetitions
+	Neighbours []NeighbourReq `json:"neighbours,omitempty"`
 	Cache   bool                    `json:"cache"` // serve through a PlanCache as well
+}
+
+type NeighbourReq struct {
+	Text   string                `json:"text"`
+	OpName string                `json:"opName,omitempty"`
+	Vars   map[string]*model.Val `json:"vars,omitempty"`
 }
 
 // detModel: a schema with many equidistant names (suggestions), wide input objects, several
@@ -204,6 +213,21 @@ func c12Oracle(c *DetCase) (msg string, multi bool) {
 		for _, o := range c.Others {
 			graphql.Do(graphql.Params{Schema: b.Schema, RequestString: o, Context: sess()})
 		}
+		for _, nb := range c.Neighbours {
+			nv := map[string]interface{}{}
+			for k, v := range nb.Vars {
+				nv[k] = v.ToGo()
+			}
+			graphql.Do(graphql.Params{Schema: b.Schema, RequestString: nb.Text, OperationName: nb.OpName, VariableValues: nv, Context: sess()})
+			if pc != nil {
+				if pr := pc.Get(&b.Schema, nb.Text, nb.OpName); pr.Plan != nil {
+					for k, v := range pr.SynthArgs {
+						nv[k] = v
+					}
+					graphql.ExecutePlan(pr.Plan, graphql.ExecuteParams{Schema: b.Schema, OperationName: nb.OpName, Args: nv, Context: sess()})
+				}
+			}
+		}
 		for i, av := range c.AltVars {
 			alt := map[string]interface{}{}
 			for k, v := range av {
@@ -333,6 +357,12 @@ func TestC12_Gen(t *testing.T) {
 				`{ __schema { types { name possibleTypes { name } interfaces { name } fields { name args { name } } enumValues { name } inputFields { name } } directives { name args { name } } } }`}
 		}
 		ec.World.LooseTypeOf = gen.Chance(rt, 30, "looseTypeOf")
+		if gen.Chance(rt, 50, "neighbours") {
+			for i, n := 0, gen.Intn(rt, 1, 2, "nNeighbours"); i < n; i++ {
+				d2, op2, _ := gen.Doc(rt, ec.Schema, gen.DocOpts{Budget: 20})
+				c.Neighbours = append(c.Neighbours, NeighbourReq{Text: model.Print(d2, nil).Text, OpName: op2, Vars: gen.Variables(rt, ec.Schema, d2)})
+			}
+		}
 		msg, multi := c12Oracle(c)
 		stats.R.Class("generated_request")
 		stats.R.Case(caseKey(c), multi, func() interface{} { return c.Text })
